@@ -276,7 +276,7 @@ def load_events(path):
     return [json.loads(ln) for ln in open(path)]
 
 
-def selftest(pid, clean_traces, seed, module="TraceMain.tla"):
+def selftest(pid, clean_traces, seed, module="TraceMain.tla", count_as=None, also=None):
     """Corrupt recorded fields of accepted traces; every applicable corruption must be rejected for pid."""
     rng = random.Random(seed)
     d = vk.workdir(f"selftest_{pid}_{os.getpid()}")
@@ -295,7 +295,15 @@ def selftest(pid, clean_traces, seed, module="TraceMain.tla"):
         if cur and cur[0]["h"] not in bad_h:
             pool.append(cur)
     rng.shuffle(pool)
-    pool = pool[:60]
+    # keep the corrupted traces small: at most 60 histories and about 1.5 MB of events
+    kept, size = [], 0
+    for h in pool[:60]:
+        sz = sum(len(json.dumps(e)) for e in h)
+        if kept and size + sz > 1_500_000:
+            continue
+        kept.append(h)
+        size += sz
+    pool = kept
     flat = [e for h in pool for e in h]
     for name, (fn, props) in MUTATORS.items():
         if pid not in props:
@@ -309,7 +317,7 @@ def selftest(pid, clean_traces, seed, module="TraceMain.tla"):
             for e in mutated:
                 f.write(json.dumps(e) + "\n")
         viols, _, _, _ = vk.run_trace(module, path)
-        if any(v["prop"] == pid for v in viols):
+        if any(v["prop"] in (pid, count_as) or (also and also(v["prop"], v["conj"])) for v in viols):
             rejected.append(name)
         else:
             missed.append(name)
@@ -317,13 +325,17 @@ def selftest(pid, clean_traces, seed, module="TraceMain.tla"):
     return dict(applicable=applicable, rejected=rejected, missed=missed)
 
 
-def verdict(pid, results, hist_of, known):
-    """Split the violations tagged pid into known findings and new ones."""
+def verdict(pid, results, hist_of, known, also=None):
+    """Split the violations tagged pid into known findings and new ones. `also`: properties whose conjuncts,
+    when violated on THIS check's own driver, are violations of pid as well (e.g. C14 = C01 + C02 under a memory hint);
+    a callable (prop, conj) -> bool."""
     mine, others = [], 0
     for r in results:
         for v in r["viols"]:
             if v["prop"] == pid:
                 mine.append((r, v))
+            elif also and also(v["prop"], v["conj"]):
+                mine.append((r, dict(v, conj=f"{v['prop']}:{v['conj']}", prop=pid)))
             else:
                 others += 1
     known_hits, new = {}, []
@@ -351,7 +363,8 @@ def run_main(pid, tier, seed, replay=None):
         json.dump([payload["history"]], open(hp, "w"))
         vk.run_harness(["replay", "--hist", hp, "--threads", str(payload.get("threads", 1)), "--out", f"{d}/r"])
         viols, _, _, _ = vk.run_trace(module, f"{d}/r.ndjson")
-        mine = [v for v in viols if v["prop"] == pid]
+        also = P.get("also")
+        mine = [v for v in viols if v["prop"] == pid or (also and also(v["prop"], v["conj"]))]
         shutil.rmtree(d, ignore_errors=True)
         if mine:
             for v in mine[:5]:
@@ -383,11 +396,17 @@ def run_main(pid, tier, seed, replay=None):
     for tr in P["traces"][tier]:
         for j in range(tr["jobs"]):
             th = tr.get("threads", THREADS)
-            jobs.append(dict(name=f"{tr['profile']}_{j}", profile=tr["profile"], threads=th[j % len(th)],
-                             args=["gen", "--profile", tr["profile"], "--seed", str(seed * 7919 + j + tr.get("seed_off", 0)),
-                                   "--count", str(tr["count"]), "--threads", str(th[j % len(th)]), "--first", str(first)]
-                             + tr.get("extra", [])))
-            first += tr["count"] + 1
+            sd = str(seed * 7919 + j + tr.get("seed_off", 0))
+            if "family" in tr:
+                name = tr["family"]
+                a = ["family", "--kind", tr["family"], "--seed", sd, "--count", str(tr["count"]), "--threads", str(th[j % len(th)]),
+                     "--first", str(first)] + (["--thorough"] if tier == "thorough" else [])
+            else:
+                name = tr["profile"]
+                a = ["gen", "--profile", tr["profile"], "--seed", sd, "--count", str(tr["count"]), "--threads", str(th[j % len(th)]),
+                     "--first", str(first)]
+            jobs.append(dict(name=f"{name}_{j}", profile=name, threads=th[j % len(th)], args=a + tr.get("extra", [])))
+            first += tr["count"] * tr.get("hist_per_count", 1) + 1
     results, d = vk.gen_and_validate(jobs, module=module, parallel=P.get("parallel", 8))
     hists_cache = {}
 
@@ -399,7 +418,7 @@ def run_main(pid, tier, seed, replay=None):
         hs = hists_cache[key]
         return hs[k] if 0 <= k < len(hs) else None
 
-    mine, known_hits, new, others = verdict(pid, results, hist_of, known)
+    mine, known_hits, new, others = verdict(pid, results, hist_of, known, P.get("also"))
     n_hist = sum(r["stats"]["histories"] for r in results)
     n_events = sum(r["stats"]["events"] for r in results)
     drift = sum(len(r["drifts"]) for r in results)
@@ -409,7 +428,7 @@ def run_main(pid, tier, seed, replay=None):
     for r in results:
         bad_h = {v["h"] for v in r["viols"]}
         bad_by_trace.append((r["prefix"] + ".ndjson", bad_h))
-    st = selftest(pid, bad_by_trace, seed, module=module)
+    st = selftest(P.get("selftest_as", pid), bad_by_trace, seed, module=module, count_as=pid, also=P.get("also"))
     vk.log(f"[selftest] corruptions applicable={st['applicable']} rejected={st['rejected']} missed={st['missed']}")
 
     # ---- 4. samples and evidence
@@ -456,7 +475,7 @@ def run_main(pid, tier, seed, replay=None):
     for kid, (k, n) in known_hits.items():
         print(f"KNOWN-FINDING: property={pid} {k['what']} [{kid}] ({n} occurrences this run)")
     if st["missed"] or not st["applicable"]:
-        vk.write_evidence(pid, tier, seed, "model_checking", coverage, time.time() - t0, len(new), assumptions)
+        vk.write_evidence(pid, tier, seed, P.get("level", "model_checking"), coverage, time.time() - t0, len(new), assumptions)
         shutil.rmtree(d, ignore_errors=True)
         raise vk.ToolError(f"self-test failed: corruptions not rejected: {st['missed']} (applicable: {st['applicable']})")
     if new:
@@ -470,7 +489,7 @@ def run_main(pid, tier, seed, replay=None):
         vk.log(f"[{pid}] {len(new)} violations, distinct conjuncts: {sigs[:12]}")
         print(f"VIOLATION property={pid} replay={path}")
         rc = 1
-    vk.write_evidence(pid, tier, seed, "model_checking", coverage, time.time() - t0, len(new), assumptions)
+    vk.write_evidence(pid, tier, seed, P.get("level", "model_checking"), coverage, time.time() - t0, len(new), assumptions)
     shutil.rmtree(d, ignore_errors=True)
     vk.log(f"[{pid}] {n_hist} histories, {n_events} events validated, {len(mine)} violations of {pid} "
            f"({len(new)} new), {others} of other properties, drift {drift}")
@@ -563,5 +582,75 @@ MAIN = {
         distinct=distinct_forests, sample_event="Build",
     ),
 }
+
+def mut_fd_leak(events, rng):
+    i = _find(events, lambda e: e.get("ev") == "Build", rng)
+    if i is None:
+        return None
+    ev = copy.deepcopy(events)
+    ev[i]["fd_delta"] = 1
+    return ev
+
+
+def mut_cancel_success(events, rng):
+    i = _find(events, lambda e: e.get("ev") == "Build" and e["args"]["cancel_at"] >= 0 and e["res"]["c"] == "Cancelled", rng)
+    if i is None:
+        return None
+    ev = copy.deepcopy(events)
+    ev[i]["res"] = {"c": "Panic", "msg": "x"}
+    return ev
+
+
+def mut_abort_trace(events, rng):
+    i = _find(events, lambda e: e.get("ev") == "Abort" and e["all"] and e["all"][0]["store"], rng)
+    if i is None:
+        return None
+    ev = copy.deepcopy(events)
+    ev[i]["all"][0]["store"].pop()
+    return ev
+
+
+def mut_noprogress(events, rng):
+    i = _find(events, lambda e: e.get("ev") == "Build" and e["res"]["c"] == "Ok" and e["args"]["cancel_at"] < 0, rng)
+    if i is None:
+        return None
+    ev = copy.deepcopy(events)
+    ev[i]["res"] = {"c": "NoProgress"}
+    return ev
+
+
+MUTATORS.update({
+    "fd_leak": (mut_fd_leak, ["C10"]),
+    "cancel_panics": (mut_cancel_success, ["C10"]),
+    "abort_leaves_trace": (mut_abort_trace, ["C10", "C08"]),
+    "build_never_ends": (mut_noprogress, ["C14", "C20"]),
+})
+MUTATORS["drop_bucket_item"][1].extend(["C13", "C14", "C20"])
+
+MAIN.update({
+    "C10": dict(
+        mc=dict(quick=[mc("MC_Forest.cfg", "cancel_txn", {"WithCancel": "TRUE", "WithTxn": "TRUE", "Ids": "{1, 2, 3}", "Toks": "{\"a\"}"})],
+                thorough=[mc("MC_Forest.cfg", "cancel_txn_2toks", {"WithCancel": "TRUE", "WithTxn": "TRUE"}, timeout=2400)]),
+        traces=dict(quick=[dict(family="cancel", jobs=6, count=2, threads=[1, 1, 1, 4, 1, 2]), dict(family="faults", jobs=2, count=1, hist_per_count=10, seed_off=50)],
+                    thorough=[dict(family="cancel", jobs=12, count=8, threads=[1, 1, 4, 1, 2, 16]), dict(family="faults", jobs=4, count=4, hist_per_count=10, seed_off=50)]),
+        distinct=distinct_events, sample_event="Build",
+        also=lambda prop, conj: prop in ("C01", "C02", "C08") or (prop == "C14" and conj.startswith("build_failed")),
+        level="fault_enumeration",
+    ),
+    "C14": dict(
+        mc=dict(quick=[mc("MC_Batch.cfg", "batch_liveness")],
+                thorough=[mc("MC_Batch.cfg", "batch_liveness"), mc("MC_Batch.cfg", "batch_liveness_cap1_2", {"Caps": "{1, 2}", "MaxBuilds": "2", "Ids": "{1, 2, 3}"}, timeout=2400),
+                          mc("MC_Batch.cfg", "sens_batch_as_coded", {"AsCodedBatch": "TRUE"}, expect=True)]),
+        traces=dict(quick=[dict(family="mem", jobs=8, count=3, threads=[1, 1, 2, 1])], thorough=[dict(family="mem", jobs=16, count=20, threads=[1, 1, 2, 4])]),
+        distinct=distinct_forests, sample_event="Build",
+        also=lambda prop, conj: prop in ("C01", "C02"),
+    ),
+    "C20": dict(
+        mc=dict(quick=FOREST_Q, thorough=FOREST_T),
+        traces=dict(quick=[dict(family="degenerate", jobs=8, count=6)], thorough=[dict(family="degenerate", jobs=16, count=60)]),
+        distinct=distinct_forests, sample_event="Build",
+        also=lambda prop, conj: prop in ("C01", "C05", "C14") or (prop == "C03" and conj != "reported_distance_wrong"),
+    ),
+})
 
 PLANS = {pid: dict(run=run_main) for pid in MAIN}
